@@ -357,8 +357,23 @@ def row_tokens(enc, rng):
             ra.append(("table:style-name", "ro1"))
         rng.shuffle(ra)
         toks.append("R" + ",".join("%s=%s" % (hx(k), hx(v)) for k, v in ra))
-        for rep, cell, cov in elems:
+        for ei, (rep, cell, cov) in enumerate(elems):
             a = cell_attrs(rep, cell, rng)
+            if not cov:
+                # a merged cell announces the columns (and rows) it spans; the covered cells that
+                # follow are written as usual (one element per column or one repeated element), so
+                # the span attributes add nothing to the positions
+                span = 0
+                for rep2, _, cov2 in elems[ei + 1:]:
+                    if not cov2:
+                        break
+                    span += rep2
+                if span and rep == 1 and rng.random() < 0.8:
+                    a.append(("table:number-columns-spanned", str(span + 1)))
+                    a.append(("table:number-rows-spanned", str(rng.choice([1, 1, 2]))))
+                    rng.shuffle(a)
+                elif rng.random() < 0.03:
+                    a.append(("table:number-rows-spanned", "2"))
             t = "C" + ("1" if cov else "0") + ",".join("%s=%s" % (hx(k), hx(v)) for k, v in a)
             for p in display_paras(cell, rng):
                 t += "~" + hx(p)
